@@ -53,6 +53,8 @@ def run(ck):
     from .c04 import scorer_total as _st01
     _st01(ck, "C01.18")
     emptied_member(ck, "C01.19")
+    if ck.wants("C01.20"):
+        joined_is_collinear(ck, "C01.20")
     ck.clause("C01.17", "a record is not altered after it was built (as C02.11): the plotters run inside the worker on the row that is "
                         "written later - a segment list re-ordered in place lists the pairs out of reference order")
     from .c02 import records_frozen as _rf01
@@ -351,6 +353,104 @@ def resolver_used(ck):
 
 
 # ---------------------------------------------------------------------------------------------------------- C01.3
+def joined_is_collinear(ck, rule):
+    """What decides whether two records of a query are joined looks at orientation, reference id and the distance on the REFERENCE
+    only; the pair resolution trims overlaps but never asks in which order the two parts lie in the QUERY. Parts that are close on
+    the reference but swapped (translocated block) or repeated (tandem duplication) in the query join to a record whose query label
+    numbers are not monotone. The join has to test the joined record (or the parts' query order) before it hands it back."""
+    p = ck.ctx.p
+    ck.clause(rule, "two records are joined only to a record that is itself collinear: the join tests neighbouring pairs of the joined "
+                    "record on both sequences (the eligibility test and the pair resolution look at the reference only; parts swapped or "
+                    "repeated in the query would join to non-monotone query label numbers)")
+    row = p.find_class("AlignmentResultRow")
+    fn = row.methods.get("resolve") if row else None
+    if fn is None or fn.self_name is None:
+        cands = [m for m in (row.methods.values() if row else []) if m.self_name and any(
+            isinstance(x, ast.Attribute) and x.attr == "resolveConflict" for x in ast.walk(m.node))]
+        fn = cands[0] if cands else None
+    if fn is None:
+        raise AnalysisError("the method of AlignmentResultRow that joins two records was not found")
+
+    def is_create(e):
+        return isinstance(e, ast.Call) and isinstance(e.func, ast.Attribute) and e.func.attr == "create" \
+            and "AlignmentResultRow" in ast.unparse(e.func.value)
+
+    def monotone_test(f) -> bool:
+        """the body compares neighbouring pairs strictly on a reference and on a query label number / coordinate"""
+        src_ok = any(isinstance(x, ast.Call) and ast.unparse(x.func) in ("zip", "itertools.pairwise", "pairwise") for x in ast.walk(f.node)) or \
+            any(isinstance(x, ast.Subscript) and isinstance(x.slice, ast.BinOp) for x in ast.walk(f.node))
+        axes = set()
+        for c in ast.walk(f.node):
+            if isinstance(c, ast.Compare) and all(isinstance(o, (ast.Lt, ast.Gt)) for o in c.ops):
+                txt = ast.unparse(c)
+                for ax in ("reference", "query"):
+                    if f".{ax}.siteId" in txt or f".{ax}.position" in txt:
+                        axes.add(ax)
+        return src_ok and axes == {"reference", "query"}
+
+    parents = {c: par for par in ast.walk(fn.node) for c in ast.iter_child_nodes(par)}
+    creates = [n for n in ast.walk(fn.node) if is_create(n)]
+    if not creates:
+        raise AnalysisError(f"{fn.where}: the joined record is not built by AlignmentResultRow.create here")
+    for cr in creates:
+        par = parents.get(cr)
+        w = where(fn, cr)
+        construct = "AlignmentResultRow.resolve:joined-record:collinear"
+        if isinstance(par, ast.Return):
+            ck.violation(rule, construct, w,
+                         "the joined record is handed back as it is built: nothing on the way from 'same orientation, same reference, close "
+                         "on the reference' to the record compares the parts' order in the query - a part that lies BEFORE the other on the "
+                         "reference and AFTER it in the query (swapped block, tandem duplication; default parameters, -oM joined / all / best) "
+                         "joins to a record such as (81,18)(82,19)(83,20)(103,4)(104,5)...: query label numbers not increasing on '+'",
+                         found=ast.unparse(par)[:120], required="return the joined record only if its neighbouring pairs ascend on the "
+                         "reference and run strictly one way in the query; otherwise report the parts separately")
+            continue
+        if isinstance(par, ast.Assign) and len(par.targets) == 1 and isinstance(par.targets[0], ast.Name):
+            name = par.targets[0].id
+            rets = [r for r in ast.walk(fn.node) if isinstance(r, ast.Return) and isinstance(r.value, ast.Name) and r.value.id == name]
+            if not rets:
+                raise AnalysisError(f"{w}: where the joined record `{name}` is handed back was not found")
+            for r in rets:
+                guard = None
+                cur = r
+                while cur in parents and parents[cur] is not fn.node:
+                    if isinstance(parents[cur], ast.If) and any(cur is b for b in parents[cur].body):
+                        t = parents[cur].test
+                        for x in ast.walk(t):
+                            if isinstance(x, ast.Call) and isinstance(x.func, ast.Attribute) and isinstance(x.func.value, ast.Name) \
+                                    and x.func.value.id == name:
+                                guard = x
+                    cur = parents[cur]
+                if guard is None:
+                    # `if not joined.<test>(): return None` in front of the return, in the same block
+                    blk = parents.get(r)
+                    body = next((b for b in (getattr(blk, "body", None), getattr(blk, "orelse", None)) if b and r in b), None)
+                    for st in (body[:body.index(r)] if body else []):
+                        if isinstance(st, ast.If) and isinstance(st.test, ast.UnaryOp) and isinstance(st.test.op, ast.Not) \
+                                and isinstance(st.test.operand, ast.Call) and isinstance(st.test.operand.func, ast.Attribute) \
+                                and isinstance(st.test.operand.func.value, ast.Name) and st.test.operand.func.value.id == name \
+                                and st.body and isinstance(st.body[-1], ast.Return) and (
+                                    st.body[-1].value is None or (isinstance(st.body[-1].value, ast.Constant) and st.body[-1].value.value is None)):
+                            guard = st.test.operand
+                if guard is None:
+                    ck.violation(rule, construct, where(fn, r), "the joined record is handed back untested (see the clause)",
+                                 found=ast.unparse(r), required="a test of the joined record's pairs on both sequences")
+                    continue
+                from ..loader import mangle
+                helper = p.lookup_method(row, mangle(guard.func.attr, row.name), None) or p.lookup_method(row, guard.func.attr, None)
+                if helper is None:
+                    raise AnalysisError(f"{where(fn, guard)}: the test {ast.unparse(guard)[:60]} of the joined record could not be resolved")
+                if monotone_test(helper):
+                    ck.ok(rule, construct, where(fn, r), f"handed back only when {helper.name} holds: neighbouring pairs compared strictly "
+                          "on reference and query")
+                else:
+                    raise AnalysisError(f"{helper.where}: the test the joined record has to pass is not recognised as a comparison of "
+                                        "neighbouring pairs on both sequences")
+            continue
+        raise AnalysisError(f"{w}: what happens to the joined record is not recognised")
+    ck.floor(rule + " joined-record constructions", len(creates), 1)
+
+
 def emptied_member(ck, rule):
     """A chain member that a resolution empties must not shield its two neighbours from each other. The pass compares index
     neighbours (i, i+1) once; the empty segment answers every conflict test with 'no conflict'; a resolution can hand back an empty
